@@ -72,6 +72,18 @@ func checkC18(c *Case, r *Rec) error {
 		}
 		return nil
 	}
+	if c.Kind == "number" {
+		if cssNumberLike.MatchString(v) && !cssNumber.MatchString(v) && h(v) {
+			return violation("", "C18: the default handler for %q accepts %q, which is not a CSS number", prop, v)
+		}
+		return nil
+	}
+	if c.Kind == "word" {
+		if h(v) && !cssWords[v] {
+			return violation("", "C18: the default handler for %q accepts %q, which is not a word of any CSS value space", prop, v)
+		}
+		return nil
+	}
 	if hostileCSS(v) && h(v) {
 		return violation("", "C18: the default handler for %q accepts the hostile value %q", prop, v)
 	}
@@ -338,6 +350,15 @@ func fixedC18(r *Rec, tier string, shard, nshards int) []*Case {
 			}
 		}
 	}
+	wf, wcalls, free := keywordDictionaryStage(props)
+	fails = append(fails, wf...)
+	totalCalls += wcalls
+	r.ClassN("keyword_dictionary_calls", wcalls)
+	nf, ncalls := numberSpaceStage(props)
+	fails = append(fails, nf...)
+	totalCalls += ncalls
+	r.ClassN("malformed_number_calls", ncalls)
+	r.SetExtra("handlers_with_open_identifier_space", free)
 	r.EvalN(totalCalls)
 	r.SetExtra("handlers_checked", len(props))
 	r.SetExtra("handlers_without_accepted_seed", noSeeds)
